@@ -299,9 +299,13 @@ static void run_trace(unsigned long long seed, long n)
       { int nb = 2 + vbelow(&r, 5), efs = fs / 50 * (1 + vbelow(&r, 3)), mls = vchance(&r, 70) ? rbits(&r, 0, 9000) : rbits(&r, 0, 2147483647);
         t_cm(fs, br, efs, nb, mls, rbits(&r, 0, mls)); }
       t_fss(vchance(&r, 50) ? fsz : rbits(&r, 0, 2147483647), vchance(&r, 10) ? (int)vnext(&r) : 5000 + (int)vbelow(&r, 10), fs);
-      { int nb = rbits(&r, 1, 255), mm = vchance(&r, 50) ? rbits(&r, 1, 9000) : rbits(&r, 1, 2147483647), tot = rbits(&r, 0, mm);
+      { int nb = rbits(&r, 1, 255), mm = vchance(&r, 50) ? rbits(&r, 1, 9000) : rbits(&r, 1, 2147483647);
         int ub = vchance(&r, 30) ? OPUS_AUTO : vchance(&r, 30) ? OPUS_BITRATE_MAX : rbits(&r, 500, 76500000);
-        t_ms(vbelow(&r, 2), ub, rbits(&r, 500, 715827882), nb, fs, fsz, mm, tot, rbits(&r, 0, nb - 1)); }
+        int vb = vbelow(&r, 2), rs = rbits(&r, 500, 715827882);
+        long long d = 24LL * fs / fsz, sp = 2 * nb - 1 + (fs / fsz == 10 ? nb : 0), cl = mm, q;   /* tot_size <= the clamped budget */
+        if (!vb && ub == OPUS_AUTO) { q = 3LL * rs / d; if (q < cl) cl = q; }
+        else if (!vb && ub != OPUS_BITRATE_MAX) { q = 3LL * ub / d; if (q < sp) q = sp; if (q < cl) cl = q; }
+        t_ms(vb, ub, rs, nb, fs, fsz, mm, rbits(&r, 0, (int)cl), rbits(&r, 0, nb - 1)); }
       { int e = dur(fs, vbelow(&r, 6)); int b2 = some_bitrate(&r, fs, vchance(&r, 50) ? e : fsz >= e ? fsz : e, ch, m);
         t_bt(fs, e, b2, m, rbits(&r, 0, m < 257 ? m : 257)); }
    }
